@@ -394,7 +394,9 @@ def run(world, main, sched="fifo", step_cap=200000):
         world.on_change = None
         loop.step_cap = loop.nsteps + 100000
         for _ in range(50):
-            pend = [t for t in tasks.all_tasks(loop) if not t.done()]
+            # (all_tasks() is a set: its order follows object addresses)
+            pend = sorted((t for t in tasks.all_tasks(loop) if not t.done()),
+                          key=lambda t: t.get_name())
             if not pend:
                 break
             for t in pend:
